@@ -147,6 +147,15 @@ def layers(tier):
                     'filter_tables (and filter_candset on the full cross product) under EDIT_DISTANCE on the complete '
                     'table STR({a,b},%d) x q x padding x t 0..2 x n_jobs 1,2' % (4 if quick else 5),
                     min_nontrivial=1000, chunksize=1))
+    jobs = []
+    for name in ('Size', 'Prefix', 'Position'):
+        for meas in PRUNED_MEASURES:
+            jobs.append({'filter': name, 'meas': meas, 'gen': {'gen': 'univ', 'K': 5}, 'pres': pres,
+                         'pairs': [(0.9, 0.7), (0.9, 0.4), (0.7, 0.4), (0.4, 0.9), (0.5, 0.25), (1.0, 0.2)], 'n_jobs': 2})
+    Ls.append(Layer('reassigned-threshold', 'checks.filters:w_ftables_reassigned', jobs,
+                    'a Size / Prefix / PositionFilter object used once and then given another value for its documented '
+                    'threshold attribute (6 changes, lowered and raised): filter_tables and filter_pair on UNIV(5) keep '
+                    'every pair that meets the current threshold', min_nontrivial=1000, chunksize=1))
     k, r = 3, 2
     nsc = len(tiny_scenarios(k, r))
     jobs = []
